@@ -4,6 +4,7 @@
      MC_Binding.cfg / _fix.cfg              quick: as-is (Fix = FALSE) / repaired (Fix = TRUE)
      MC_Binding_ratify.cfg / _ratify_fix    flows with the fourth frame (10E0 addenda)
      MC_Binding_thorough*.cfg               larger choice sets
+     MC_Binding_skew*.cfg                   the transports' packet clocks differ from the gateways' clocks
      MC_Binding_scen*.cfg                   scenario enumeration (ScenarioOut) for the harness *)
 EXTENDS Binding
 
@@ -17,6 +18,11 @@ EC_one   == {0}
 EC_two   == {0, 140}
 TC_none  == {-1}
 TC_some  == {-1, 5, 45}
+\* packet clock minus gateway clock (ms) at <<R's gateway, S's gateway>>: in step (a serial dongle), behind by more
+\* than a reply takes / by more than any wait, ahead
+SK_none  == {<<0, 0>>}
+SK_some  == {<<0, 0>>, <<-250, 0>>, <<0, -250>>, <<250, 250>>, <<-5000, -5000>>}
+SK_all   == {-5000, -250, 0, 250} \X {-5000, -250, 0, 250}
 P_both   == {<<TRUE, TRUE>>}
 P_all    == {<<TRUE, TRUE>>, <<TRUE, FALSE>>, <<FALSE, TRUE>>}
 =============================================================================
